@@ -50,3 +50,95 @@ def make(shape):
 
 for _n in FN:
     make(SHAPES[_n])
+
+
+# ---------------------------------------------------------------------------------------------- convex mesh
+def _det3(a, b, c):
+    return dot(a, spec.cross(b, c))
+
+
+def _sub(a, b):
+    return [a[i] - b[i] for i in range(3)]
+
+
+TETRA_FACES = [(0, 2, 1), (0, 1, 3), (0, 3, 2), (1, 2, 3)]     # outward winding for a positively oriented tetrahedron
+
+
+@contract("containment_test.points_in_convex_mesh[tetrahedron]", fn="distance3d.containment_test.points_in_convex_mesh", props=["C13"],
+          deps=["distance3d.utils.invert_transform"])
+def _(cx):
+    """any positively oriented tetrahedron (symbolic vertices, outward wound faces), any pose, batch of 2 arbitrary points: result[i] is True
+    iff all four barycentric coordinates of points[i] (signed sub-volumes, an oracle independent of face normals and centres) are >= 0"""
+    f = cx.target()
+    T = spec.pose(cx, "T")
+    if sym(cx):
+        V = [cx.vec("v%d" % i) for i in range(4)]
+    else:
+        V = [spec.arr(cx, [cx.real("v%d_%d" % (i, j), lo=-2.0, hi=2.0) for j in range(3)]) for i in range(4)]
+    det = _det3(_sub(V[1], V[0]), _sub(V[2], V[0]), _sub(V[3], V[0]))
+    if sym(cx):
+        cx.assume(det > 0, "pre:positively_oriented")
+    else:
+        from d3vc.sym import CB
+        cx.assume(CB(1e-2 - float(det)), "pre:positively_oriented")
+    verts = np.ascontiguousarray(np.array(V, dtype=object if sym(cx) else float))
+    tris = np.array(TETRA_FACES, dtype=int)
+    pts, locs = [], []
+    for i in range(BATCH):
+        pw, y = spec.world_point(cx, "p%d" % i, T)
+        pts.append(pw)
+        locs.append(y)
+    points = np.array(pts, dtype=object if sym(cx) else float)
+    res = cx.call(f, points, T, verts, tris)
+    cx.prove("result_shape", bool(isinstance(res, np.ndarray) and res.shape == (BATCH,)))
+    for i in range(BATCH):
+        y = locs[i]
+        # barycentric numerators: replace vertex k by the point
+        D = []
+        for k in range(4):
+            W = [y if j == k else V[j] for j in range(4)]
+            D.append(_det3(_sub(W[1], W[0]), _sub(W[2], W[0]), _sub(W[3], W[0])))
+        if sym(cx):
+            if res[i]:
+                cx.prove("true_implies_member[%d]" % i, cx.all([cx.ge(Dk, 0.0) for Dk in D]))
+            else:
+                cx.prove("false_implies_outside[%d]" % i, cx.any([cx.lt(Dk, 0.0) for Dk in D]))
+        else:
+            from d3vc.sym import CB
+            lam = [float(Dk) / float(det) for Dk in D]
+            scale = max(1.0, max(abs(float(c)) for v in V for c in v))
+            if res[i]:
+                cx.prove("true_implies_member[%d]" % i, CB(-min(lam) * scale), tol=1e-9 * scale)
+            else:
+                cx.prove("false_implies_outside[%d]" % i, CB(min(lam) * scale), tol=1e-9 * scale)
+    cx.cover("end")
+
+
+OCTA_V = np.array([[1.0, 0, 0], [-1.0, 0, 0], [0, 1.0, 0], [0, -1.0, 0], [0, 0, 1.0], [0, 0, -1.0]])
+OCTA_T = np.array([[0, 2, 4], [2, 1, 4], [1, 3, 4], [3, 0, 4], [2, 0, 5], [1, 2, 5], [3, 1, 5], [0, 3, 5]], dtype=int)
+
+
+@contract("containment_test.points_in_convex_mesh[octahedron]", fn="distance3d.containment_test.points_in_convex_mesh", props=["C13"],
+          deps=["distance3d.utils.invert_transform"], opts=dict(abs_ite=True))
+def _(cx):
+    """regular octahedron scaled by a symbolic size (8 outward wound faces, none coplanar with another), any pose, one arbitrary point (the batch dimension is covered by the tetrahedron contract):
+    result[i] is True iff |y0| + |y1| + |y2| <= size in the mesh frame"""
+    f = cx.target()
+    T = spec.pose(cx, "T")
+    s = spec.size(cx, "size", 1e-2, 1e2)
+    verts = np.ascontiguousarray(np.array([[s * c for c in row] for row in OCTA_V], dtype=object if sym(cx) else float))
+    pts, locs = [], []
+    for i in range(1):
+        pw, y = spec.world_point(cx, "p%d" % i, T)
+        pts.append(pw)
+        locs.append(y)
+    points = np.array(pts, dtype=object if sym(cx) else float)
+    res = cx.call(f, points, T, verts, OCTA_T)
+    for i in range(1):
+        y = locs[i]
+        l1 = cx.abs(y[0]) + cx.abs(y[1]) + cx.abs(y[2])
+        if res[i]:
+            cx.prove("true_implies_member[%d]" % i, cx.le(l1, s), tol=1e-9)
+        else:
+            cx.prove("false_implies_outside[%d]" % i, cx.gt(l1, s), tol=0.0)
+    cx.cover("end")
